@@ -8,13 +8,23 @@ copies everything it reads from stdin to the report FIFO - never to its stdout/t
 end of file.  The first byte of the report is b'R' ("ready, raw mode is set").
 It never writes to its stdout: the harness plays "the child's output" itself through
 /proc/<pid>/fd/1, so that the placement of child output is under the harness' control.
+On SIGUSR1 it lets go of its output side (fd 1 and 2 are pointed at /dev/null) and keeps reading.
 """
 import os
+import signal
 import sys
+
+
+def release_output(signum, frame):
+    null = os.open(os.devnull, os.O_WRONLY)
+    os.dup2(null, 1)
+    os.dup2(null, 2)
+    os.close(null)
 
 
 def main():
     rep = os.open(sys.argv[1], os.O_WRONLY)
+    signal.signal(signal.SIGUSR1, release_output)
     if os.isatty(0):
         import tty
         tty.setraw(0)
